@@ -44,9 +44,15 @@ def run(tier):
     runs, bad = vlib.validate_runs(rep, "PlaceTrace", "PlaceTrace", tr, wd, "random", describe=describe,
                                    strip=("ring_a", "ring_b", "ring_big", "keys", "routes"))
     os.remove(tr)
+    # every node is a process of its own: the same memberships placed by two fresh processes and by the recording one
+    tr = os.path.join(wd, "xproc.ndjson")
+    vlib.vh(["place", "xproc", "--seed", vlib.seed() + 40, "--n", 24 if thorough else 6, "--out", tr])
+    vlib.validate_runs(rep, "PlaceTrace", "PlaceTrace", tr, wd, "across_processes", describe=describe, strip=())
+    os.remove(tr)
     rep.cov["distinct_nontrivial"] = rep.cov["traces_validated_against_impl"]
     rep.cov["rule"] = ("a case is one membership (1-6 nodes, ids contiguous or not) built in two join/leave orders with a vnode "
-                       "count in {1,2,3,150} and rf 1-5, 12 keys, every member as gossip sender")
+                       "count in {1,2,3,150} and rf 1-5, 12 keys, every member as gossip sender (small batches, and one round of 2500+ "
+                       "updates from the first member); a few memberships are also placed by two fresh processes")
     rep.cov["exhaustive"] = True
     rep.cov["explanation"] = "exhaustive over join orders of clusters of <= 4 (thorough 5) nodes; random memberships are samples"
     rep.assumptions += ["ring positions are reported as dense ranks (order-preserving), since TLC integers are 32 bit",
